@@ -137,6 +137,13 @@ func newEncSpec(rng *mon.RNG, fixedDoc bool) *encSpec {
 	return s
 }
 
+func (s *encSpec) lateRefMode() int {
+	if s.fixedDoc {
+		return 0
+	}
+	return 1
+}
+
 func (s *encSpec) kind() string {
 	if s.fixedDoc {
 		return "dec"
